@@ -134,3 +134,33 @@ def build_tree(spec_):
         for f in c.get('files', []):
             ch.add_file(**copy.deepcopy(f))
     return d
+
+
+def tree_from_snap(s):
+    """A fresh tree, built through the public API, that has exactly the
+    state recorded in snapshot `s` (used as the 'reached from elsewhere'
+    side of differential oracles)."""
+    def fill(sec, node):
+        sec.options.clear()
+        sec.options.update(copy.deepcopy(node['options']))
+
+    def fill_content(sec, node):
+        fill(sec, node)
+        c = copy.deepcopy(node['content'])
+        if c is not None:
+            sec.content = c
+    d = DiffX()
+    fill(d, s)
+    fill_content(d.preamble_section, s['preamble'])
+    fill_content(d.meta_section, s['meta'])
+    for cs in s['changes']:
+        c = d.add_change()
+        fill(c, cs)
+        fill_content(c.preamble_section, cs['preamble'])
+        fill_content(c.meta_section, cs['meta'])
+        for fs in cs['files']:
+            f = c.add_file()
+            fill(f, fs)
+            fill_content(f.meta_section, fs['meta'])
+            fill_content(f.diff_section, fs['diff'])
+    return d
